@@ -1,4 +1,5 @@
 import SieveModel.Lemmas.Gating
+import SieveModel.Lemmas.Loaded
 import SieveModel.Spec.ExtensionMap
 import SieveModel.Generated.Tables
 import SieveModel.Model.Show
@@ -16,8 +17,13 @@ import SieveModel.Model.Show
 * `loaded_only_grows_by_require`: the loaded-extension list is changed only by the completion
   callback of a `require` command, and only by adding that command's (unquoted) capability names.
 
-Open: the trace-level statement (every extension-bound node of an accepted result is preceded by
-a completed `require`) is kept as `accepted_uses_are_preceded_by_require_statement`.
+* **trace level** (`loaded_names_come_from_completed_requires`, `command_use_is_preceded_by_require`,
+  `tagged_argument_use_is_preceded_by_require`): in a parse from the initial state, at every point of
+  the token stream, every name in the loaded list is a capability argument of a `require` command that
+  an *earlier* `;` of the stream completed; hence whenever the parser creates an instance of an
+  extension-bound command, or records an extension-bound tagged argument, that extension was named by
+  a `require` completed before that token.  The step-level fact behind it: one token changes the loaded
+  list only if it is the `;` ending the current command, and then by that command's completion callback.
 -/
 namespace C07
 open Args Machine
@@ -72,8 +78,44 @@ theorem loaded_only_grows_by_require (f : Frame) (loaded : List Bytes) :
 example : Show.outcome (sb "fileinto \"a\";") (parse Generated.builtinTable (sb "fileinto \"a\";"))
     = "reject 1 1 8 extNotLoaded 66696c65696e746f" := by decide
 
-def accepted_uses_are_preceded_by_require_statement : Prop :=
-  ∀ (T : Table) (text : Bytes) (r : List Node), parse T text = .accept r →
-    True  -- placeholder shape; the precise trace-level statement is developed in Lemmas/GatingTrace.lean
+/-- one delivered token changes the loaded list only as the `;` that completes a `require`, by that
+    command's capability arguments -/
+theorem token_changes_loaded_only_by_require (T : Table) (s s' : PState) (tok : Tok)
+    (h : deliver T s tok = .ok s') : ∀ e ∈ s'.loaded, e ∈ s.loaded ∨ Loaded.Origin s tok e :=
+  Loaded.deliver_loaded T s tok s' h
+
+/-- **trace level**: after any prefix of the token stream of a parse (initial state: nothing loaded), each
+    loaded name was put there by a `require` command completed by an earlier `;` -/
+theorem loaded_names_come_from_completed_requires (T : Table) (toks : List Tok) (s' : PState) (m : Nat)
+    (h : feed T toks {} 0 = .done s' m) :
+    ∀ e ∈ s'.loaded, ∃ pre tok post sm k, toks = pre ++ tok :: post ∧ feed T pre {} 0 = .done sm k ∧
+      tok.kind = .semicolon ∧ ∃ g rest, sm.stack = g :: rest ∧ g.d.special = .require ∧
+        e ∈ (capabilityArgs g.st.arguments).map (B.stripC 34) := by
+  intro e he
+  rcases Loaded.feed_loaded_origin T toks {} 0 s' m h e he with h0 | ⟨pre, tok, post, sm, k, h1, h2, h3, g, rest, h4, h5, h6⟩
+  · simp at h0
+  · exact ⟨pre, tok, post, sm, k, h1, h2, h3, g, rest, h4, h5, h6⟩
+
+/-- **use preceded by require (commands)**: if, after the prefix `pre` of a parse, the parser creates an
+    instance of a command bound to extension `e`, then an earlier `;` of `pre` completed a `require` naming `e` -/
+theorem command_use_is_preceded_by_require (T : Table) (pre : List Tok) (sm : PState) (m : Nat)
+    (h : feed T pre {} 0 = .done sm m) (ident : Bytes) (d : CmdDef) (e : Bytes)
+    (hget : getCommand T sm.loaded ident true = .ok d) (hext : d.extension = some e) :
+    ∃ p tok post s0 k, pre = p ++ tok :: post ∧ feed T p {} 0 = .done s0 k ∧ tok.kind = .semicolon ∧
+      ∃ g rest, s0.stack = g :: rest ∧ g.d.special = .require ∧
+        e ∈ (capabilityArgs g.st.arguments).map (B.stripC 34) :=
+  loaded_names_come_from_completed_requires T pre sm m h e (command_needs_loaded_extension T sm.loaded ident d hget e hext)
+
+/-- **use preceded by require (tagged arguments)** -/
+theorem tagged_argument_use_is_preceded_by_require (T : Table) (pre : List Tok) (sm : PState) (m : Nat)
+    (h : feed T pre {} 0 = .done sm m) (cmd : Bytes) (add : Bool) (t : ArgType) (v : AVal) (st st' : CState)
+    (defs : List ArgDef) (pos : Nat) (k : String)
+    (hscan : scan cmd sm.loaded true add t v st defs pos = .ok (st', .arg k)) :
+    ∃ a ∈ defs, a.name = k ∧ (a.required = false → ∀ e, a.extension = some e →
+      ∃ p tok post s0 k0, pre = p ++ tok :: post ∧ feed T p {} 0 = .done s0 k0 ∧ tok.kind = .semicolon ∧
+        ∃ g rest, s0.stack = g :: rest ∧ g.d.special = .require ∧
+          e ∈ (capabilityArgs g.st.arguments).map (B.stripC 34)) := by
+  obtain ⟨a, ha, hk, _, hgate⟩ := tagged_argument_needs_loaded_extension cmd sm.loaded add t v st st' defs pos k hscan
+  exact ⟨a, ha, hk, fun hr e he => loaded_names_come_from_completed_requires T pre sm m h e (hgate hr e he)⟩
 
 end C07
